@@ -195,6 +195,8 @@ func mutateLex(r *hx.Rng, lex []string) []string {
 
 // ---------------------------------------------------------------- oracle
 
+const bom = "\ufeff"
+
 type failure struct {
 	What  string `json:"what"`
 	Key   string `json:"key"`
@@ -326,6 +328,12 @@ func checkProperty(in input, ir implResult) *failure {
 			return mk("accepted text is analysed with a different structure than the documented grammar gives", "tree:"+src, renderObs([][]int{refTree}))
 		}
 	case !refOK && ir.accepted:
+		if strings.HasPrefix(src, bom) {
+			// text/scanner silently drops a byte order mark in front of the first character
+			if _, _, ok := refParse(src[len(bom):]); ok && implParse(src[len(bom):]).accepted {
+				return mk("a byte order mark directly in front of the expression text is skipped (and becomes part of the first token's text)", "leading-bom", "reject")
+			}
+		}
 		return mk("text outside the documented grammar is accepted", "accepts:"+src, "reject")
 	case refOK && !ir.accepted:
 		norm, classes := normaliseLiterals(src, toks)
@@ -362,6 +370,7 @@ type worker struct {
 	done   chan struct{}
 
 	evals      int
+	skipped    int
 	accepted   int
 	dist       map[string]int
 	fails      []failure
@@ -393,7 +402,12 @@ func startWorker(modelPath string) *worker {
 }
 
 func coqOK(s string) bool {
-	return hx.CoqStrOK(s) && utf8.ValidString(s) && !strings.ContainsAny(s, "\n\r")
+	for i := 0; i < len(s); i++ {
+		if (s[i] < 32 && s[i] != '\t') || s[i] == 127 {
+			return false
+		}
+	}
+	return hx.CoqStrOK(s) && utf8.ValidString(s)
 }
 
 func (w *worker) process(in input, seed uint64, sampleMod uint32) {
@@ -412,7 +426,11 @@ func (w *worker) process(in input, seed uint64, sampleMod uint32) {
 	} else {
 		w.dist["reject:parser"]++
 	}
-	if w.stdin != nil {
+	if strings.HasPrefix(src, bom) {
+		// outside the model's domain (docs/C04.md): text/scanner's BOM skipping
+		w.dist["not_sent_to_model:leading_bom"]++
+		w.skipped++
+	} else if w.stdin != nil {
 		hb := make([]string, len(bad))
 		for i, b := range bad {
 			hb[i] = hex.EncodeToString([]byte(b))
@@ -425,7 +443,7 @@ func (w *worker) process(in input, seed uint64, sampleMod uint32) {
 		}
 		w.dist["oracle_failure"]++
 	}
-	if sampleMod > 0 && coqOK(src) {
+	if sampleMod > 0 && coqOK(src) && !strings.HasPrefix(src, bom) {
 		h := fnv.New32a()
 		fmt.Fprintf(h, "%d|%s", seed, src)
 		if h.Sum32()%sampleMod == 0 {
@@ -513,9 +531,9 @@ func main() {
 	chans := make([]chan []input, *workers)
 	var wg sync.WaitGroup
 	// expected sample sizes ~120 per stream
-	sampleMods := map[string]uint32{"strings": 5000, "raw": 400, "tokens": 1700, "random": 160, "mutant": 330, "corpus": 1}
+	sampleMods := map[string]uint32{"strings": 5000, "raw": 400, "tokens": 1700, "random": 160, "mutant": 330, "corpus": 1, "ascii": 150}
 	if *tier == "thorough" {
-		sampleMods = map[string]uint32{"strings": 140000, "raw": 11000, "tokens": 34000, "random": 160 * 8, "mutant": 330 * 8, "corpus": 1}
+		sampleMods = map[string]uint32{"strings": 140000, "raw": 11000, "tokens": 34000, "random": 160 * 8, "mutant": 330 * 8, "corpus": 1, "ascii": 150}
 	}
 	for i := range ws {
 		ws[i] = startWorker(*model)
@@ -552,6 +570,24 @@ func main() {
 		emit(input{s + "}}", "corpus"})
 		emit(input{" " + s + " }}", "corpus"})
 	}
+	// every ASCII character (and a few non-ASCII ones) in every lexical context,
+	// and every pair of ASCII characters: catches changes of a character class
+	// outside the enumeration alphabet (e.g. another whitespace character)
+	wide := []string{}
+	for c := 1; c < 128; c++ {
+		wide = append(wide, string(rune(c)))
+	}
+	wide = append(wide, "é", "\u00a0", "€", "\u2028", "\ufeff")
+	for _, c := range wide {
+		for _, tpl := range []string{"%s", "%sa", "a%s", "a%sb", "a %s b", "1%s", "1%s2", "a.%sb", "a%s.b", "'%s'", "f(%s)", "f(a%s)", "a%s=b", "!%sa", "a[%s0]", "0x1%s", "1.5%s", "1e%s5", "a &&%s b", "(%sa)"} {
+			emit(input{fmt.Sprintf(tpl, c) + "}}", "ascii"})
+		}
+	}
+	for _, c := range wide[:127] {
+		for _, d := range wide[:127] {
+			emit(input{c + d + "}}", "ascii"})
+		}
+	}
 	enumerate(alphabet, strLen, "", "}}", "strings", emit)
 	enumerate(alphabet, rawLen, "", "", "raw", emit)
 	enumerate(tokenLexemes, tokLen, " ", " }}", "tokens", emit)
@@ -580,13 +616,14 @@ func main() {
 	wg.Wait()
 
 	sum := hx.NewSummary("C04")
-	sum.Rule = fmt.Sprintf("every string of length <= %d over the %d-symbol lexical alphabet followed by }} (and of length <= %d without it); every sequence of <= %d canonical lexemes over the 20 token kinds and }}; %d random sentences of the grammar (depth <= 8, random whitespace) and 2 mutants of each; non-trivial = accepted by the implementation (a tree is compared); distinct inputs by construction of the enumerations", strLen, len(alphabet), rawLen, tokLen, *n)
+	sum.Rule = fmt.Sprintf("every string of length <= %d over the %d-symbol lexical alphabet followed by }} (and of length <= %d without it); every sequence of <= %d canonical lexemes over the 20 token kinds and }}; every ASCII character (and 5 non-ASCII ones) in 20 lexical contexts and every pair of ASCII characters; %d random sentences of the grammar (depth <= 8, random whitespace) and 2 mutants of each; non-trivial = accepted by the implementation (a tree is compared); distinct inputs by construction of the enumerations", strLen, len(alphabet), rawLen, tokLen, *n)
 	sum.Samples = samples
 	var fails []failure
 	var mism []modelMismatch
 	var coqCases, coqSources []string
 	modelEvaluated := 0
 	modelErr := ""
+	skippedModel := 0
 	for _, w := range ws {
 		ev, mm, et := w.finish()
 		modelEvaluated += ev
@@ -595,6 +632,7 @@ func main() {
 			modelErr = et
 		}
 		sum.Evaluations += w.evals
+		skippedModel += w.skipped
 		sum.Nontrivial += w.accepted
 		for k, v := range w.dist {
 			sum.Dist[k] += v
@@ -624,7 +662,12 @@ func main() {
 		}
 		perKey[k]++
 		// keep one representative per known class and the 50 shortest others
-		if strings.HasPrefix(f.Key, "number-literal:") && perKey[k] > 1 {
+		if f.Key == "leading-bom" {
+			k = f.Key
+			perKey["other"]--
+			perKey[k]++
+		}
+		if (strings.HasPrefix(f.Key, "number-literal:") || f.Key == "leading-bom") && perKey[k] > 1 {
 			continue
 		}
 		if k == "other" && perKey[k] > 50 {
@@ -635,6 +678,7 @@ func main() {
 	sum.Extra["oracle_failures_total"] = len(fails)
 	sum.Extra["oracle_failures_by_class"] = perKey
 	sum.Extra["model_evaluated"] = modelEvaluated
+	sum.Extra["model_skipped"] = skippedModel
 	sum.Extra["model_mismatches_total"] = len(mism)
 	if len(mism) > 20 {
 		mism = mism[:20]
